@@ -103,6 +103,17 @@ CHECKS = {
             {"pkg": "pkg/sql/ast", "harness": "VxC14_Deep", "expect_asserts": ["C14.deep"]},
         ] + parruns(["VxSoup_Start2", "VxSoup_Select2", "VxSoup_From2", "VxSoup_Where2"], ["VxSoup_Start3", "VxSoup_Select3", "VxSoup_From3", "VxSoup_Where3"], ["C14.tree_visits"]),
     },
+    "C16": {
+        "bounds": {"quick": "7 payload families (tautology with numbers, with symbolic two-letter string contents, with identifiers; SLEEP / PG_SLEEP calls, LOAD_FILE, BENCHMARK(..., LOAD_FILE(...)) with symbolic letter case) x 10 positions the scanner covers (WHERE, redundant parentheses, AND / OR / NOT operands, HAVING, UPDATE and DELETE WHERE, UNION arm, comment/whitespace layout) and x 9 nested positions of the property's list (known finding); severity threshold: 6 statements x {LOW, MEDIUM, HIGH, CRITICAL, invalid}: exact filtering, counts, repeatability, tree untouched (write monitor)",
+                   "thorough": "same (the space is finite and explored completely)"},
+        "outside": "ScanSQL's regular-expression detection on symbolic text (regex engine not encodable; executed on concrete renderings only); payload spellings beyond letter case and the listed layouts",
+        "assumptions": ["trees are produced by the real parser from the assembled text"],
+        "runs": [
+            {"pkg": "pkg/sql/security", "harness": "VxC16_Closure", "expect_asserts": ["C16.reported"]},
+            {"pkg": "pkg/sql/security", "harness": "VxC16_ClosureBlind", "expect_asserts": ["C16.reported_nested"]},
+            {"pkg": "pkg/sql/security", "harness": "VxC16_Threshold", "expect_asserts": ["C16.threshold_exact", "C16.counts", "C16.repeatable"]},
+        ],
+    },
     "C11": {
         "bounds": {"quick": "Parser.ParseContext under a context that turns done at its k-th poll (k symbolic 0..63, both Canceled and DeadlineExceeded, arbitrary start depth 0..49): a 70-token nested statement (CTE, IN list, CASE, nested function calls, JOIN ON, BETWEEN, UNION, EXISTS sub-query), an INSERT ... RETURNING with function calls, and every <= 2-token continuation of SELECT / SELECT a FROM t WHERE over the 45-row expression table",
                    "thorough": "<= 3-token continuations"},
